@@ -91,6 +91,7 @@ func (x *Exec) setup(fn *ssa.Function, key string, ct *Contract) {
 	x.topKey = key
 	x.contract = ct
 	x.nosafety = ct.NoSafety
+	x.wraps = ct.Wraps
 	x.entry = &State{Guard: tTrue, Heaps: map[string]Term{}, Alloc: Term{"alloc@0", "Int"}}
 	x.emit("(declare-const alloc@0 Int)")
 	x.emit("(assert (>= alloc@0 0))")
@@ -147,6 +148,25 @@ func (x *Exec) runTop() {
 		if label == "" {
 			label = fmt.Sprintf("%d", k+1)
 		}
+		if wit, ok := ct.Witness[label]; ok && len(fr.retState) > 0 {
+			// existentials with named witnesses are proved per return, with the
+			// witness expressions read at that return
+			var conj []Term
+			for ri := range fr.retState {
+				rst := fr.retState[ri]
+				renv := x.envAt(fr, fr.retBlock[ri], rst)
+				x.bindResults(renv, fn, tupleOf(fr.retVals[ri], fn.Signature.Results()))
+				renv.postMode = true
+				renv.witness = map[string]Val{}
+				for _, wb := range wit {
+					renv.witness[wb.Name] = x.evalVal(renv, wb.E)
+				}
+				t := x.evalBool(renv, en.E)
+				x.oblige("post", fmt.Sprintf("post#%s@r%d", label, ri+1), rst.Guard, t, "postcondition (witnesses given) at return "+fmt.Sprint(ri+1)+": "+en.Text, fr.retBlock[ri].Instrs[len(fr.retBlock[ri].Instrs)-1].Pos(), false)
+				conj = append(conj, mkImp(rst.Guard, t))
+			}
+			continue
+		}
 		t := x.evalBool(penv, en.E)
 		x.oblige("post", "post#"+label, exit.Guard, t, "postcondition: "+en.Text, fn.Pos(), false)
 	}
@@ -184,7 +204,7 @@ func (x *Exec) frameObligations(fr *Frame, penv *SpecEnv, exit *State) {
 			if id, ok := ix.I.(EIdent); ok && id.Name == "*" {
 				v := x.evalVal(entryEnv, ix.X)
 				sl := v.Typ.Underlying().(*types.Slice)
-				hn, _ := x.S.ElemHeap(x.S.SortOf(sl.Elem()))
+				hn, _ := x.S.ElemHeapT(sl.Elem())
 				ex[hn] = append(ex[hn], Term{app("s_ref", v.T), "Int"})
 				continue
 			}
@@ -208,7 +228,7 @@ func (x *Exec) frameObligations(fr *Frame, penv *SpecEnv, exit *State) {
 					ex[hn] = append(ex[hn], base.T)
 				}
 			} else {
-				hn, _ := x.S.CellHeap(x.S.SortOf(pt))
+				hn, _ := x.S.CellHeapT(pt)
 				ex[hn] = append(ex[hn], base.T)
 			}
 		}
